@@ -20,6 +20,8 @@ Inductive bexpr :=
 | BEOverBudget                         (* self.used_memory > self._bufsize      (used_memory is self._usedmem) *)
 | BEHasUkv                             (* hasattr(self, "_ukvfile") *)
 | BENot (e : bexpr)
+| BEAnd (a b : bexpr)                  (* a and b   (b is not evaluated when a is false) *)
+| BEState (x : sess)                   (* self._state == "idle" / "reading" / "writing" *)
 | BEStr (s : string) | BENone.         (* constants passed to the UKVFile: a mode, None *)
 
 Inductive bstmt :=
@@ -49,10 +51,14 @@ Record bstate := mkbs {
   bq : list (bytes * bytes);           (* _write_queue, oldest first *)
   bks : list bytes;                    (* _keys *)
   bused : Z; bbuf : Z; bro : bool;
+  bsess : sess;                        (* _state: set by reading() / writing(), which are not translated; only read here *)
   bloc : string -> option bytes
 }.
 
 Inductive boutcome := BONormal | BOReturn (v : option bytes) | BORaise (e : berr).
+
+Definition sess_eqb (a b : sess) : bool :=
+  match a, b with SIdle, SIdle | SReading, SReading | SWriting, SWriting => true | _, _ => false end.
 
 Definition berr_of_exn (x : exn) : berr :=
   match x with XUnsupported => BUnsupported | XKey => BKey | XStruct => BStruct | _ => BAttr end.
@@ -69,6 +75,11 @@ Fixpoint beval_bool (s : bstate) (e : bexpr) : option bool :=
   | BEOverBudget => Some (Z.ltb (bbuf s) (bused s))
   | BEHasUkv => Some (has_inner s)
   | BENot e1 => match beval_bool s e1 with Some x => Some (negb x) | None => None end
+  | BEAnd a b => match beval_bool s a with
+                 | Some true => beval_bool s b
+                 | Some false => Some false
+                 | None => None end
+  | BEState x => Some (sess_eqb (bsess s) x)
   | _ => None
   end.
 
@@ -82,10 +93,10 @@ Definition beval_val (s : bstate) (e : bexpr) : option val :=
   end.
 
 Definition set_bloc (s : bstate) (x : string) (v : bytes) : bstate :=
-  mkbs (inner s) (has_inner s) (bq s) (bks s) (bused s) (bbuf s) (bro s) (fun y => if String.eqb x y then Some v else bloc s y).
+  mkbs (inner s) (has_inner s) (bq s) (bks s) (bused s) (bbuf s) (bro s) (bsess s) (fun y => if String.eqb x y then Some v else bloc s y).
 
 Definition restore_loc (s : bstate) (l : string -> option bytes) : bstate :=
-  mkbs (inner s) (has_inner s) (bq s) (bks s) (bused s) (bbuf s) (bro s) l.
+  mkbs (inner s) (has_inner s) (bq s) (bks s) (bused s) (bbuf s) (bro s) (bsess s) l.
 
 (* bind the arguments of a call on the inner object: its parameters become locals of the inner MiniPy state *)
 Fixpoint bind_inner (s : bstate) (st : state) (args : list (string * bexpr)) : option state :=
@@ -97,7 +108,7 @@ Fixpoint bind_inner (s : bstate) (st : state) (args : list (string * bexpr)) : o
   end.
 
 Definition with_inner (s : bstate) (st : state) : bstate :=
-  mkbs st (has_inner s) (bq s) (bks s) (bused s) (bbuf s) (bro s) (bloc s).
+  mkbs st (has_inner s) (bq s) (bks s) (bused s) (bbuf s) (bro s) (bsess s) (bloc s).
 
 Fixpoint bwloop (eb : bstate -> bstate * boutcome) (kx vx : string) (n : nat) (s : bstate) : bstate * boutcome :=
   match n with
@@ -106,7 +117,7 @@ Fixpoint bwloop (eb : bstate -> bstate * boutcome) (kx vx : string) (n : nat) (s
       match bq s with
       | [] => (s, BONormal)
       | (k, v) :: q' =>
-          let s1 := set_bloc (set_bloc (mkbs (inner s) (has_inner s) q' (bks s) (bused s) (bbuf s) (bro s) (bloc s)) kx k) vx v in
+          let s1 := set_bloc (set_bloc (mkbs (inner s) (has_inner s) q' (bks s) (bused s) (bbuf s) (bro s) (bsess s) (bloc s)) kx k) vx v in
           let '(s2, o) := eb s1 in
           match o with
           | BONormal => bwloop eb kx vx n' s2
@@ -126,17 +137,17 @@ Fixpoint bexec (fuel : nat) (c : bstmt) (s : bstate) {struct c} : bstate * boutc
   | BRaise e => (s, BORaise e)
   | BQueueAppend k v =>
       match beval_bytes s k, beval_bytes s v with
-      | Some kb, Some vb => (mkbs (inner s) (has_inner s) (bq s ++ [(kb, vb)]) (bks s) (bused s) (bbuf s) (bro s) (bloc s), BONormal)
+      | Some kb, Some vb => (mkbs (inner s) (has_inner s) (bq s ++ [(kb, vb)]) (bks s) (bused s) (bbuf s) (bro s) (bsess s) (bloc s), BONormal)
       | _, _ => (s, BORaise BAttr) end
   | BKeysAdd k =>
       match beval_bytes s k with
-      | Some kb => (mkbs (inner s) (has_inner s) (bq s) (set_add (bks s) kb) (bused s) (bbuf s) (bro s) (bloc s), BONormal)
+      | Some kb => (mkbs (inner s) (has_inner s) (bq s) (set_add (bks s) kb) (bused s) (bbuf s) (bro s) (bsess s) (bloc s), BONormal)
       | None => (s, BORaise BAttr) end
   | BUsedAddLens k v =>
       match beval_bytes s k, beval_bytes s v with
-      | Some kb, Some vb => (mkbs (inner s) (has_inner s) (bq s) (bks s) (bused s + Z.of_N (len kb) + Z.of_N (len vb))%Z (bbuf s) (bro s) (bloc s), BONormal)
+      | Some kb, Some vb => (mkbs (inner s) (has_inner s) (bq s) (bks s) (bused s + Z.of_N (len kb) + Z.of_N (len vb))%Z (bbuf s) (bro s) (bsess s) (bloc s), BONormal)
       | _, _ => (s, BORaise BAttr) end
-  | BUsedReset => (mkbs (inner s) (has_inner s) (bq s) (bks s) 0%Z (bbuf s) (bro s) (bloc s), BONormal)
+  | BUsedReset => (mkbs (inner s) (has_inner s) (bq s) (bks s) 0%Z (bbuf s) (bro s) (bsess s) (bloc s), BONormal)
   | BCall body => let '(s1, o) := bexec fuel body s in                (* the callee has its own local variables: *)
                   (restore_loc s1 (bloc s), match o with BOReturn _ => BONormal | _ => o end)    (* the caller's come back *)
   | BCallRet body => let '(s1, o) := bexec fuel body s in
@@ -173,11 +184,11 @@ Fixpoint bexec (fuel : nat) (c : bstmt) (s : bstate) {struct c} : bstate * boutc
   | BKeysFromUkv e =>
       if negb (has_inner s) then (s, BORaise BAttr) else
       match eval (inner s) e with
-      | Val (VToc t) => (mkbs (inner s) (has_inner s) (bq s) (map fst t) (bused s) (bbuf s) (bro s) (bloc s), BONormal)
+      | Val (VToc t) => (mkbs (inner s) (has_inner s) (bq s) (map fst t) (bused s) (bbuf s) (bro s) (bsess s) (bloc s), BONormal)
       | _ => (s, BORaise BAttr)
       end
   | BKeysAddQueued =>
-      (mkbs (inner s) (has_inner s) (bq s) (set_union (bks s) (map fst (bq s))) (bused s) (bbuf s) (bro s) (bloc s), BONormal)
+      (mkbs (inner s) (has_inner s) (bq s) (set_union (bks s) (map fst (bq s))) (bused s) (bbuf s) (bro s) (bsess s) (bloc s), BONormal)
   | BUkvNew p args =>
       (* a new object: no attributes, no stream yet; the attribute _ukvfile is set only if the constructor returns *)
       match bind_inner s (mkst (file (inner s)) (mks 0 false true) empty_env empty_env) args with
@@ -186,7 +197,7 @@ Fixpoint bexec (fuel : nat) (c : bstmt) (s : bstate) {struct c} : bstate * boutc
           let '(st', o) := exec fuel p st in
           match o with
           | ORaise x => (with_inner s (mkst (file st') (strm (inner s)) (attrs (inner s)) (locals (inner s))), BORaise (berr_of_exn x))
-          | _ => (mkbs st' true (bq s) (bks s) (bused s) (bbuf s) (bro s) (bloc s), BONormal)
+          | _ => (mkbs st' true (bq s) (bks s) (bused s) (bbuf s) (bro s) (bsess s) (bloc s), BONormal)
           end
       end
   end.
